@@ -36,6 +36,32 @@ def parts_mismatch(d, e, scale):
     return bad
 
 
+def const_width_misses(dumps, profile):
+    """each dump: parts = [LEN, start, end, edge0..edgeLEN] as hex words; exact edge i = start + i*(end-start)/LEN"""
+    import math
+    from fractions import Fraction
+    out = []
+    for k, d in enumerate(dumps):
+        w = d.get("parts") or []
+        if len(w) < 4:
+            continue
+        L = int(w[0], 16)
+        a, b = rpl.w2f(w[1]), rpl.w2f(w[2])
+        big = max(abs(a), abs(b))
+        ulp = math.ulp(big)
+        fa, fb = Fraction(a), Fraction(b)
+        for i in range(L + 1):
+            got = rpl.w2f(w[3 + i])
+            exact = fa + i * (fb - fa) / L
+            if math.isnan(got) or abs(Fraction(got) - exact) > 8 * Fraction(ulp):
+                out.append({"profile": profile, "LEN": L, "start": a, "end": b, "edge": i, "got": got, "exact": float(exact),
+                            "off_by_ulps": None if math.isnan(got) else float(abs(Fraction(got) - exact) / Fraction(ulp))})
+                break
+        if len(out) >= 4:
+            break
+    return out
+
+
 def confirm(prop, res):
     """Replay a violated obligation natively. Returns ('violated', path) | ('inconclusive', reason)."""
     rp_ = res.get("_replay")
@@ -62,6 +88,9 @@ def confirm(prop, res):
                 if d.get("parts") != dumps[0].get("parts"):
                     mism.append({"profile": profile, "dump": k, "parts": d.get("parts"), "reference_parts": dumps[0].get("parts")})
             continue
+        if info.get("mode") == "const-width-probes":
+            mism += const_width_misses(dumps, profile)
+            continue
         for k, (d, e) in enumerate(zip(dumps, expected)):
             bad = rpl.compare(d, e, rel=1e-9, scale=info.get("scale", 1.0)) + parts_mismatch(d, e, info.get("scale", 1.0))
             if bad:
@@ -84,6 +113,11 @@ def replay_file(path):
     bad_total = 0
     for profile in ("debug", "release"):
         dumps = rpl.run_scenario(rec["program"], profile)
+        if rec.get("info", {}).get("mode") == "const-width-probes":
+            for x in const_width_misses(dumps, profile):
+                print(x)
+                bad_total += 1
+            continue
         if rec.get("info", {}).get("mode") == "all-dumps-bit-equal":
             for k, d in enumerate(dumps[1:], 1):
                 if d.get("parts") != dumps[0].get("parts"):
@@ -291,4 +325,5 @@ def plan_c12(tier, seed):
 
     def body(W, T):
         T(hi.check_const_width, "C12")
+        T(hi.check_const_width_accuracy, "C12")
     return run_set("C12", tier, True, body)
